@@ -571,7 +571,7 @@ def run(run):
                 # merge = clone self, merge_with(other), return the clone
                 ok = any(is_call(x, "merge_with") and x[2][1][0] == "var" and x[2][1][1] == "other" for x in S.subterms(tm))
                 run.check("R4", "override|%s|merge-via-merge_with" % short, ok, "merge must apply merge_with(other) to a copy of self", F.loc(fm["body"]))
-        run.floor("merge_with overrides", n, 3)
+        run.floor("merge_with overrides", n, 1)
         # taint::State::merge_with merges every field with the same field of other
         fs = F.fn("merge_with", adt="State", trait="AbstractDomain", mod="analysis::taint::state")
         st = F.adt("analysis::taint::state::State")
